@@ -1,5 +1,5 @@
 From Coq Require Import ZArith List Bool Arith.
-From PV Require Import Base.U64 E3.E3_Run C05.C05_Asym C05.C05_AsymProofs C05.C05_Model C05.C05_Proofs C05.C05_Proofs2 C05.C05_Proofs3.
+From PV Require Import Base.U64 E3.E3_Run C05.C05_Asym C05.C05_AsymProofs C05.C05_Model C05.C05_Proofs C05.C05_Proofs2 C05.C05_Proofs3 C05.C05_Proofs4.
 Import ListNotations.
 
 (* ---- asymmetric_spinLock (the run-queue lock) ------------------------------------------------- *)
@@ -84,3 +84,15 @@ Theorem join_exact : forall progs nv n flags t0 s, (nv <= n)%nat -> reachable pr
     (th_joinable (s_th s t) = false -> g_joinret (s_th s t) = 0%nat).
 Proof. exact join_exact_proof. Qed.
 Print Assumptions join_exact.
+
+(* nthreads_restored: vcpu.nthreads = main + idler + the program threads that exist, have not finished and belong
+   to that vCPU (whatever migrated / was stolen in between); when all created program threads are DONE every
+   vCPU's count is back to its initial value *)
+Theorem nthreads_restored : forall progs nv n flags t0 s, (nv <= n)%nat -> reachable progs nv n flags t0 s ->
+  s_n s = n /\ s_nv s = nv /\
+  forall v,
+    v_nthreads (s_vc s v) = ((if Nat.ltb v nv then 2 else 0) + Z.of_nat (users_on s v))%Z /\
+    ((forall t, is_user (th_kind (s_th s t)) = true -> th_state (s_th s t) = NOTCREATED \/ th_state (s_th s t) = DONE) ->
+       v_nthreads (s_vc s v) = v_nthreads (s_vc (init_state nv n flags t0) v)).
+Proof. exact nthreads_proof. Qed.
+Print Assumptions nthreads_restored.
